@@ -192,4 +192,46 @@ example :
       (fun pc => match pc with | .done u => some (u.ikCreated, u.ikMat) | _ => none) =
       [some (5, (0, 1)), some (5, (0, 1)), some (5, (0, 1))] := by decide
 
+
+/-! ### why racers collide: creation stamps inside one precision window -/
+
+/-- **the race premise.** The model runs all racers under ONE `Policy` (one clock value).  Real
+processes read their own clocks: whenever two readings fall into the same precision window
+(`now / precision` equal) with the same `CreateDatePrecision`, the stamps they give a new key are
+equal — so their inserts target the same `(id, created)` and exactly the situation of this file
+arises (one accepted insert, the others refused). -/
+theorem racers_in_one_window_collide (p q : Policy) (hp : 0 < p.precision)
+    (hprec : p.precision = q.precision) (hwin : p.now / p.precision = q.now / q.precision) :
+    stamp p = stamp q := by
+  unfold stamp
+  rw [← hprec] at hwin ⊢
+  rw [if_pos hp, if_pos hp]
+  have e1 : p.now - p.now % p.precision = p.precision * (p.now / p.precision) := by
+    have := Int.emod_add_mul_ediv p.now p.precision; omega
+  have e2 : q.now - q.now % p.precision = p.precision * (q.now / p.precision) := by
+    have := Int.emod_add_mul_ediv q.now p.precision; omega
+  rw [e1, e2, hwin]
+
+/-- and a later clock never yields an older stamp: racers in different windows are ordered, the later
+one finds the earlier one's row as "latest". -/
+theorem later_racer_stamps_later (p q : Policy) (hprec : p.precision = q.precision) (h : p.now ≤ q.now) :
+    stamp p ≤ stamp q := by
+  unfold stamp
+  rw [← hprec]
+  have hs : (0 : Int) < nsPerSec := by decide
+  split
+  · rename_i hp
+    apply Int.ediv_le_ediv hs
+    have e1 : p.now - p.now % p.precision = p.precision * (p.now / p.precision) := by
+      have := Int.emod_add_mul_ediv p.now p.precision; omega
+    have e2 : q.now - q.now % p.precision = p.precision * (q.now / p.precision) := by
+      have := Int.emod_add_mul_ediv q.now p.precision; omega
+    rw [e1, e2]
+    exact Int.mul_le_mul_of_nonneg_left (Int.ediv_le_ediv hp h) (Int.le_of_lt hp)
+  · exact Int.ediv_le_ediv hs h
+
+/-- non-vacuity: second 5 and second 55 of one minute collide under a one-minute precision. -/
+example : stamp ⟨1700000045000000000, 3600000000000, 60000000000⟩ =
+    stamp ⟨1700000095000000000, 3600000000000, 60000000000⟩ := by decide
+
 end AsherahVerif.Props.C14
